@@ -8,6 +8,8 @@ def written_pointers(P, f, inst):
     """for a store / call instruction: list of operand valrefs that are written through"""
     if inst.op == 'store':
         return [inst.ops[1]]
+    if inst.op in ('cmpxchg', 'atomicrmw'):
+        return [inst.ops[0]]          # (atomic read-modify-write: a write to shared state all the same - atomicity removes the data race, not the dependence on other threads' calls)
     if inst.op == 'call' and not P.is_dbg(inst):
         t = P.call_target(inst)
         if t[0] == 'direct':
@@ -218,6 +220,114 @@ def api_deps(ctx, rep, cfgs=None):
                       '%s can call dep:%s' % (name, ', dep:'.join(extra)), detail={'reaches': sorted(got), 'allowed': sorted(allowed)}, sample={'function': name, 'reaches': sorted(got)},
                       key='CALL-4|%s' % name)
         rep.instances(n, 10, 'public operations')
+
+
+DEP_IN_OUT = {'u8_nfc': [(0, 1)], 'u8_nfkd': [(0, 1)], 'pbkdf2_sha256': [(0, 5), (2, 5)]}
+
+
+def dep_aliasing(ctx, rep, cfgs=None):
+    """CALL-5: an injected function never receives the same buffer as input and as output"""
+    from .ir import strip_casts
+    for cfg in cfgs or ['NsS']:
+        P = ctx.prog(cfg)
+        if cfg not in rep.configs: rep.configs.append(cfg)
+        rep.rule('CALL-5', 'no injected function is handed the same buffer as its input and as its output (u8_nfc / u8_nfkd: str vs norm; pbkdf2_sha256: password and salt vs key): '
+                 'the interface does not promise callees that tolerate overlap - a normaliser that writes while it reads, or a KDF that re-keys from the password buffer in '
+                 'every iteration, is conforming - so the result would depend on the implementation injected. Decided as must-alias: both arguments resolve (through casts, '
+                 'constant offsets and the parameters of internal helpers, at every call site) to the same object at the same offset')
+        n = 0
+        def roots(f, v):
+            out = set()
+            for g, b, off in P.leaves(f, v):
+                if b['k'] == 'i':
+                    i = g.insts[b['id']]
+                    if i.op in ('alloca', 'call'): out.add((g.name, 'i', b['id'], off))
+                elif b['k'] == 'a': out.add((g.name, 'a', b['n'], off))
+                elif b['k'] == 'g': out.add(('', 'g', b.get('name'), off))
+            return out
+        for f in P.defined.values():
+            for i, t in P.calls(f):
+                if t[0] != 'dep' or t[1] not in DEP_IN_OUT: continue
+                for a, b in DEP_IN_OUT[t[1]]:
+                    if b >= len(i.ops): raise AnalysisBroken('dep:%s called with %d arguments at %s' % (t[1], len(i.ops), i.loc))
+                    n += 1
+                    ra, rb = roots(f, i.ops[a]), roots(f, i.ops[b])
+                    same = sorted(x for x in ra & rb if x[3] is not None)
+                    rep.check(not same, 'dep:%s at %s: argument %d (input) and argument %d (output) are different buffers' % (t[1], i.loc, a, b), i.loc,
+                              '%s: dep:%s reads and writes the same buffer' % (base_name(f.name), t[1]), detail={'same_object': [list(map(str, x)) for x in same[:3]]},
+                              sample={'site': i.loc, 'dep': t[1], 'input_roots': len(ra), 'output_roots': len(rb)} if n <= 4 else None, key='CALL-5|%s|%s' % (base_name(f.name), t[1]))
+        rep.instances(n, 5, 'input/output argument pairs of injected functions')
+
+
+def local_escape(ctx, rep, cfgs=None):
+    """ESC-1: the address of a local never outlives its function"""
+    for cfg in cfgs or ['NsS']:
+        P = ctx.prog(cfg)
+        if cfg not in rep.configs: rep.configs.append(cfg)
+        rep.rule('ESC-1', 'no pointer into a local buffer of a function is left, when that function returns, in memory that outlives it (an object of a caller reached through a '
+                 'parameter, static storage) or returned: a later read through it reads a dead stack frame (undefined; works only while the compiler inlines the helper). Decided per '
+                 'call chain: "stores a pointer derived from parameter i into the object parameter j points to" is a summary of the storing function, instantiated at each call site '
+                 'with that site\'s own arguments (no cross product between call sites)')
+        def roots(f, v, depth=0, seen=None):
+            """where a pointer value comes from: {('alloca', id) | ('param', n) | ('global', name) | ('other',)}"""
+            seen = seen if seen is not None else set()
+            out = set()
+            if v['k'] == 'a': return {('param', v['n'])}
+            if v['k'] == 'g': return {('global', v.get('name'))}
+            if v['k'] == 'ce':
+                for o in v.get('ops', []): out |= roots(f, o, depth, seen)
+                return out or {('other',)}
+            if v['k'] != 'i': return {('other',)}
+            if v['id'] in seen or depth > 40: return set()
+            seen.add(v['id'])
+            i = f.insts.get(v['id'])
+            if i is None: return {('other',)}
+            if i.op == 'alloca': return {('alloca', i.id)}
+            if i.op in ('bitcast', 'getelementptr', 'addrspacecast'): return roots(f, i.ops[0], depth + 1, seen)
+            if i.op == 'phi':
+                for v2, _ in i.d['incoming']: out |= roots(f, v2, depth + 1, seen)
+                return out
+            if i.op == 'select': return roots(f, i.ops[1], depth + 1, seen) | roots(f, i.ops[2], depth + 1, seen)
+            return {('other',)}
+        is_ptr = lambda f, v: (v['k'] == 'a' and f.params[v['n']]['ty'].endswith('*')) or (v['k'] == 'i' and (f.insts[v['id']].d.get('ty') or '').endswith('*')) or v['k'] in ('g', 'ce')
+        # summaries: function -> set of (i, j): a pointer derived from parameter i is stored into the object parameter j points to
+        summ = {f.name: set() for f in P.defined.values()}
+        found = []       # (function, inst, description)
+        changed = True; rounds = 0
+        while changed and rounds < 8:
+            changed = False; rounds += 1
+            for f in P.defined.values():
+                flows = []      # (value roots, target roots, inst)
+                for i in f.all_insts():
+                    if i.op == 'store' and is_ptr(f, i.ops[0]):
+                        flows.append((roots(f, i.ops[0]), roots(f, i.ops[1]), i))
+                    elif i.op == 'call' and not P.is_dbg(i):
+                        t = P.call_target(i)
+                        if t[0] == 'direct' and t[1] in summ:
+                            for (a, b) in summ[t[1]]:
+                                if a < len(i.ops) and b < len(i.ops): flows.append((roots(f, i.ops[a]), roots(f, i.ops[b]), i))
+                for vr, tr, i in flows:
+                    for x in vr:
+                        for y in tr:
+                            if x[0] == 'param' and y[0] == 'param' and x[1] != y[1]:
+                                if (x[1], y[1]) not in summ[f.name]: summ[f.name].add((x[1], y[1])); changed = True
+                            elif x[0] == 'alloca' and y[0] in ('param', 'global'):
+                                d = (f.name, i.id)
+                                if d not in [z[:2] for z in found]:
+                                    a_ = f.insts[x[1]]
+                                    found.append((f.name, i.id, 'the address of local %s is stored into %s at %s' % (a_.d.get('var') or '%%%d' % x[1], 'the object parameter %d points to' % y[1] if y[0] == 'param' else 'static storage', i.loc), i.loc))
+        nret = 0
+        for f in P.defined.values():
+            for i in f.all_insts():
+                if i.op == 'ret' and i.ops and (f.d.get('ret_ty') or '').endswith('*'):
+                    nret += 1
+                    for x in roots(f, i.ops[0]):
+                        if x[0] == 'alloca': found.append((f.name, i.id, 'the address of local %s is returned at %s' % (f.insts[x[1]].d.get('var') or '%%%d' % x[1], i.loc), i.loc))
+        nst = sum(1 for f in P.defined.values() for i in f.all_insts() if i.op == 'store' and is_ptr(f, i.ops[0]))
+        rep.check(not found, 'no local address is left behind in %d pointer stores / %d pointer returns of %d functions (%d store summaries)' % (nst, nret, len(P.defined), sum(len(v) for v in summ.values())),
+                  found[0][3] if found else 'src/', '%s: %s' % (base_name(found[0][0]), found[0][2]) if found else '', detail={'escapes': [x[2] for x in found[:6]]},
+                  sample={'pointer_stores': nst, 'summaries': {base_name(k): sorted(v) for k, v in summ.items() if v}}, key='ESC-1|%s' % (base_name(found[0][0]) if found else ''))
+        rep.instances(nst + nret, 3, 'pointer stores and pointer returns')
 
 
 def api_abi(ctx, rep):
